@@ -192,7 +192,7 @@ func stateOf(h http.Header) *e2eState {
 func appHeaders(h http.Header) map[string][]string {
 	out := map[string][]string{}
 	for k, v := range h {
-		if strings.HasPrefix(k, "X-") && k != "X-Verif-Sid" {
+		if strings.HasPrefix(k, "X-") && k != "X-Verif-Sid" && k != "X-Verif-Call" {
 			out[k] = append([]string(nil), v...)
 		}
 	}
@@ -707,8 +707,21 @@ func runE2E(raw json.RawMessage, seed int64, rec *Rec) {
 		lateIDs = append(lateIDs, st.table.ID(v))
 	}
 	lateErr := errView(cerr)
+	// whose response headers ended up in this call's error metadata?
+	metaCall := "na"
+	var lce *connect.Error
+	if errors.As(cerr, &lce) {
+		switch v := lce.Meta().Get("X-Verif-Call"); v {
+		case "":
+			metaCall = "absent"
+		case sid:
+			metaCall = "own"
+		default:
+			metaCall = "foreign"
+		}
+	}
 	rec.Add(E("csaw", "ok", cerr == nil, "ids", cMsgs, "err", earlyErr,
-		"hdr", appHeaders(chdr), "trl", appHeaders(ctrl), "late_ids", lateIDs, "late_msg", lateErr["msg"]))
+		"hdr", appHeaders(chdr), "trl", appHeaders(ctrl), "late_ids", lateIDs, "late_msg", lateErr["msg"], "meta_call", metaCall))
 }
 
 func nz(a []int) []int {
@@ -743,7 +756,11 @@ var sharedDispatch = http.HandlerFunc(func(w http.ResponseWriter, r *http.Reques
 		http.Error(w, "verif: unknown scenario", http.StatusTeapot)
 		return
 	}
-	tapped(e2eHandler(st.sc), t.(*Tap)).ServeHTTP(w, r)
+	var inner http.Handler = e2eHandler(st.sc)
+	if st.sc.Peer == "server" {
+		inner = peerServer(st.sc, st)
+	}
+	tapped(inner, t.(*Tap)).ServeHTTP(w, r)
 })
 
 func sharedClient(sc *e2eScenario) *connect.Client[BV, BV] {
@@ -835,6 +852,7 @@ func peerServer(sc *e2eScenario, st *e2eState) http.Handler {
 		}
 		st.sawRequest(r.Header, connect.Spec{}, ids...)
 		app := refcodec.AppResponse{Header: http.Header{}, Trailer: http.Header{}, ErrMeta: http.Header{}}
+		app.Header.Set("X-Verif-Call", r.Header.Get("X-Verif-Sid")) // lets the client tell its own response from another call's
 		streamy := sc.Kind == "server" || sc.Kind == "bidi"
 		failing := sc.Out.Kind != "ok"
 		if !failing || streamy {
